@@ -61,16 +61,18 @@ theorem param_change_authorised (s s' : State) (mode : Mode) (t : Tx) (ok : Bool
           · rename_i hne
             have : owner = src := by simpa using hne
             subst this
-            have : gov ((send s (t.msg.signer s) s.feeAcc t.feeEff).getD s) = gov s := gov_send_getD _ _ _ _
+            have : gov ((send2 ((send s (t.msg.signer s) s.feeAcc t.feeEff).getD s) (t.msg.signer s) s.feeAcc t.fee2).getD
+                ((send s (t.msg.signer s) s.feeAcc t.feeEff).getD s)) = gov s := by
+              rw [gov_send2_getD, gov_send_getD]
             simp only [gov, Prod.mk.injEq] at this
             rw [← this.2.1]; rw [hm]; exact ho
       | _ =>
         exfalso
         apply hg
-        rw [gov_handle h1 (by rw [hm]; intro _ _ _ h; cases h), gov_send_getD]
+        rw [gov_handle h1 (by rw [hm]; intro _ _ _ h; cases h), gov_send2_getD, gov_send_getD]
     · simp at hr
       rw [← hr.1] at hg
-      exact absurd (gov_send_getD _ _ _ _) hg
+      exact absurd (by rw [gov_send2_getD, gov_send_getD]) hg
 
 /-- The same, in terms of the whole governance state (all parameters, the ACL, the DAO owner): if a transaction
 changes any of it, it was a delivered, accepted change-param message sent by the owner the ACL names for that key. -/
@@ -109,16 +111,18 @@ theorem gov_change_authorised (s s' : State) (mode : Mode) (t : Tx) (ok : Bool)
           · rename_i hne
             have : owner = src := by simpa using hne
             subst this
-            have : gov ((send s (t.msg.signer s) s.feeAcc t.feeEff).getD s) = gov s := gov_send_getD _ _ _ _
+            have : gov ((send2 ((send s (t.msg.signer s) s.feeAcc t.feeEff).getD s) (t.msg.signer s) s.feeAcc t.fee2).getD
+                ((send s (t.msg.signer s) s.feeAcc t.feeEff).getD s)) = gov s := by
+              rw [gov_send2_getD, gov_send_getD]
             simp only [gov, Prod.mk.injEq] at this
             rw [← this.2.1]; rw [hm]; exact ho
       | _ =>
         exfalso
         apply hg
-        rw [gov_handle h1 (by rw [hm]; intro _ _ _ h; cases h), gov_send_getD]
+        rw [gov_handle h1 (by rw [hm]; intro _ _ _ h; cases h), gov_send2_getD, gov_send_getD]
     · simp at hr
       rw [← hr.1] at hg
-      exact absurd (gov_send_getD _ _ _ _) hg
+      exact absurd (by rw [gov_send2_getD, gov_send_getD]) hg
 
 
 /-- Such a change alters the parameter named by the key alone. -/
@@ -309,18 +313,24 @@ theorem dao_authorised (s s' : State) (mode : Mode) (t : Tx) (ok : Bool) (h : In
     have hmd : (Mode.deliver == Mode.simulate) = false := by decide
     have ha' : anteOK s t false = true := by rw [hmd] at ha; simpa using ha
     have hok' : t.msg.basicOK = true := by simpa using hok
-    obtain ⟨hne, s1, hs1, _, _, hoth, hasc, hfr⟩ := fee_send h.wf ha'
+    obtain ⟨hne, s0, hs0, _, _, hoth, hasc0, hfr0⟩ := fee_send h.wf ha'
     have hkey := (anteOK_true ha').2.2.2.1
     have hsd := (key_not_mod h.wf hkey).2.2.2
-    have hbal : balOf s1 s.daoAcc = balOf s s.daoAcc :=
+    have hbal0 : balOf s0 s.daoAcc = balOf s s.daoAcc :=
       hoth _ (Ne.symm h.wf.modsDistinct.2.2.2.2.1) (Ne.symm hsd)
-    have e1 : s1.daoAcc = s.daoAcc := by rw [hfr]
-    have e2 : s1.daoOwner = s.daoOwner := by rw [hfr]
-    have e3 : s1.pool = s.pool := by rw [hfr]
-    have e4 : s1.supply = s.supply := by rw [hfr]
-    have e5 : s1.keys = s.keys := by rw [hfr]
-    rw [hs1] at hr
+    rw [hs0] at hr
     simp only [Option.getD_some] at hr
+    -- the part of the fee in the second denomination: a frame
+    have hfr2 := F2.send2_getD_frame s0 (t.msg.signer s) s.feeAcc t.fee2
+    generalize (send2 s0 (t.msg.signer s) s.feeAcc t.fee2).getD s0 = s1 at hr hfr2
+    have hb1 : s1.bal = s0.bal := by rw [hfr2]
+    have hasc : KeysAsc s1.bal := by rw [hb1]; exact hasc0
+    have hbal : balOf s1 s.daoAcc = balOf s s.daoAcc := by rw [balOf_congr hb1]; exact hbal0
+    have e1 : s1.daoAcc = s.daoAcc := by rw [hfr2, hfr0]
+    have e2 : s1.daoOwner = s.daoOwner := by rw [hfr2, hfr0]
+    have e3 : s1.pool = s.pool := by rw [hfr2, hfr0]
+    have e4 : s1.supply = s.supply := by rw [hfr2, hfr0]
+    have e5 : s1.keys = s.keys := by rw [hfr2, hfr0]
     split at hr
     · rename_i s2 h2
       simp at hr
